@@ -41,7 +41,9 @@ RULE = (
     'tables carry, independently, one of the row-label styles default range / permutation of 0..N-1 / sorted by an attribute '
     'without reset / gaps (rows of a larger table) / offset or negative / equal to the id column (named or not) / strings / '
     'repeated labels; 0-2 combined variables and a 2-4 term utility given as ASTs, optional second partition (over all or part '
-    'of the alternatives), nested / cross-nested structures; plus 11 fixed directed contexts. Each context is merged 3 (quick) / '
+    'of the alternatives), nested / cross-nested structures; plus 11 fixed directed contexts, plus histories (40 quick / 200 thorough): 2-4 contexts built one after the other on ONE '
+    'alternatives data frame object (cross-nested first, then cross-nested with the same nest names and other alphas / members, logit or '
+    'nested in between, the same specification again, other nest names), each judged against its own specification. Each context is merged 3 (quick) / '
     '5 (thorough) times and sampled directly 15 / 30 times with different RNG states. non-trivial = a database returned by '
     'sample_and_merge was judged row by row; distinct = hash of (specification, matrix of sampled ids)'
 )
@@ -58,6 +60,7 @@ MIN_DISTINCT = {'quick': 450, 'thorough': 2500}
 CASE_TIMEOUT = 900
 
 N_RANDOM = {'quick': 220, 'thorough': 800}
+N_HISTORY = {'quick': 40, 'thorough': 200}
 N_MERGE = {'quick': 3, 'thorough': 5}
 N_LL = {'quick': 2, 'thorough': 3}
 N_DIRECT = {'quick': 15, 'thorough': 30}
@@ -71,6 +74,7 @@ def cases(seed, tier):
     out = [{'mode': 'directed', 'k': k, 'tier': tier} for k in range(len(g.directed()))]
     out.append({'mode': 'observe', 'tier': tier})
     out += [{'mode': 'random', 'seed': seed, 'i': i, 'tier': tier} for i in range(N_RANDOM[tier])]
+    out += [{'mode': 'history', 'seed': seed, 'i': i, 'tier': tier} for i in range(N_HISTORY[tier])]
     return out
 
 
@@ -116,11 +120,13 @@ class _Judge:
         self.m = model
         self.fired = set()
         self.retag = None  # 'recycled' while the database read back from the file is judged
+        self.prefix = ''  # 'history-' for contexts that follow other contexts on the same table of alternatives
 
     def viol(self, mech, msg, **wit):
         # one witness per mechanism and case is enough
         if self.retag and mech.startswith('merged-'):
             mech = self.retag + mech[len('merged'):]
+        mech = self.prefix + mech
         if mech in self.fired:
             self.rec.c('violations_further_witnesses')
             return
@@ -454,16 +460,23 @@ def run_case(case):
     import warnings
 
     from ..gen import c19_gen as g
-    from ..oracle import c19_contracts as ct
-    from ..oracle.c19_oracle import Model
 
     warnings.simplefilter('ignore')
     if case['mode'] == 'observe':
         return _observe(case)
-    from biogeme.sampling_of_alternatives import ChoiceSetsGeneration, GenerateModel, SamplingOfAlternatives
-
     rec = Rec(case)
     tier = case.get('tier', 'quick')
+    if case['mode'] == 'history':
+        # several contexts, one after the other, on ONE data frame of alternatives (the user's own object, never copied)
+        steps = g.make_history(case['seed'], case['i'], tier)
+        _, shared = g.frames(steps[0])
+        rng_base = (case['seed'] * 1000003 + case['i'] * 211 + 17) % (2 ** 31 - 100000)
+        rec.c('histories_run')
+        for k, spec in enumerate(steps):
+            rec.c('history_steps_' + spec['history_step'])
+            _run_context(rec, spec, f'history{case["i"]} step {k} ({spec["history_step"]})', rng_base + 1009 * k, tier,
+                         with_biogeme=(k == len(steps) - 1 and case['i'] % 3 == 0), shared_alt=shared, n_merge=2, n_direct=6, prefix='history-')
+        return rec.out()
     if case['mode'] == 'directed':
         spec = g.directed()[case['k']]
         tag = f'directed{case["k"]}'
@@ -472,18 +485,30 @@ def run_case(case):
         spec = g.make_spec(case['seed'], case['i'], tier)
         tag = f'random{case["i"]}'
         rng_base = (case['seed'] * 1000003 + case['i'] * 101) % (2 ** 31 - 1000)
+    _run_context(rec, spec, tag, rng_base, tier, with_biogeme=(case['mode'] == 'directed' or case.get('i', 0) % 3 == 0))
+    return rec.out()
+
+
+def _run_context(rec, spec, tag, rng_base, tier, with_biogeme, shared_alt=None, n_merge=None, n_direct=None, prefix=''):
+    """one context: build, merge several times, judge contracts / database / likelihoods, direct samplings"""
+    from ..gen import c19_gen as g
+    from ..oracle import c19_contracts as ct
+    from ..oracle.c19_oracle import Model
+    from biogeme.sampling_of_alternatives import ChoiceSetsGeneration, GenerateModel, SamplingOfAlternatives
+
     m = Model(spec)
     J = _Judge(rec, spec, m)
+    J.prefix = prefix
     wd = os.environ.get('BIOMON_WORKDIR', '.')
     fname = os.path.join(wd, f'c19_{os.getpid()}.csv')
     try:
-        built = g.build(spec, fname)
+        built = g.build(spec, fname, alternatives=shared_alt)
         ctx = built['context']
         generator = ChoiceSetsGeneration(ctx)
         modelgen = GenerateModel(ctx)
     except BaseException as e:
         J.viol(f'valid-context-refused-{type(e).__name__}', f'{tag}: {type(e).__name__}: {e}')
-        return rec.out()
+        return
     rec.c('contexts_built')
     rec.c('contexts_' + spec['model'])
     rec.c('contexts_complete_sampling' if m.complete() else 'contexts_partial_sampling')
@@ -504,7 +529,8 @@ def run_case(case):
         builders['cnl'] = modelgen.get_cross_nested_logit
     seen_sets = set()
     last = None
-    n_merge = N_MERGE[tier] if m.n_ind * (m.total + m.mtotal) <= 500 else min(3, N_MERGE[tier])  # bound the cost of the largest contexts
+    if n_merge is None:
+        n_merge = N_MERGE[tier] if m.n_ind * (m.total + m.mtotal) <= 500 else min(3, N_MERGE[tier])  # bound the cost of the largest contexts
     for r in range(n_merge):
         np.random.seed((rng_base + 7 * r) % (2 ** 32 - 1))
         ct.reset()
@@ -525,7 +551,7 @@ def run_case(case):
             continue
         ids_main, ids_mev, ok_rows = res
         last = res
-        key = stable_hash([spec, ids_main, ids_mev])
+        key = stable_hash([spec, ids_main, ids_mev, prefix])
         rec.key(key)
         seen_sets.add(key)
         if r == 0:
@@ -536,7 +562,7 @@ def run_case(case):
             continue
         if r < N_LL[tier]:
             for kind, b in builders.items():
-                J.likelihood(kind, b, db, ids_main, ids_mev, where, with_biogeme=(r == 0 and (case['mode'] == 'directed' or case.get('i', 0) % 3 == 0)))
+                J.likelihood(kind, b, db, ids_main, ids_mev, where, with_biogeme=(r == 0 and with_biogeme))
     if len(seen_sets) > 1:
         rec.c('contexts_where_resampling_gave_different_sets')
     # the same entry point with recycle=True returns the choice sets written by the last call: same protocol
@@ -558,12 +584,12 @@ def run_case(case):
         sampler = SamplingOfAlternatives(ctx)
     except BaseException as e:
         J.viol(f'sampler-construction-raises-{type(e).__name__}', f'{tag}: {e}')
-        return rec.out()
+        return
     ct.reset()
     import random as _random
 
     rr = _random.Random(rng_base)
-    for t in range(N_DIRECT[tier]):
+    for t in range(N_DIRECT[tier] if n_direct is None else n_direct):
         np.random.seed((rng_base + 100003 + t) % (2 ** 32 - 1))
         chosen = m.ids[t % len(m.ids)] if t < len(m.ids) else rr.choice(m.ids)
         arg = float(chosen) if spec['choice_float'] else int(chosen)
@@ -580,7 +606,6 @@ def run_case(case):
         os.remove(fname)
     except OSError:
         pass
-    return rec.out()
 
 
 def finalize(cov, tier):
@@ -590,7 +615,8 @@ def finalize(cov, tier):
             'combined_variables_compared', 'combined_variables_compared_second_sample',
             'sampled_ll_compared_logit', 'sampled_ll_compared_nested', 'sampled_ll_compared_cnl',
             'complete_sampling_ll_compared_logit', 'complete_sampling_ll_compared_nested',
-            'biogeme_init_likelihood_compared', 'contexts_where_resampling_gave_different_sets', 'recycled_databases_judged',
+            'biogeme_init_likelihood_compared', 'contexts_where_resampling_gave_different_sets', 'recycled_databases_judged', 'histories_run', 'history_steps_cnl_same_names', 'history_steps_same',
+            'history_steps_cnl_other_names', 'history_steps_logit', 'history_steps_nested',
             'contexts_with_a_stratum_of_requested_size_1', 'contexts_with_arbitrary_individual_index']
     from ..gen import c19_gen as g
 
